@@ -2,6 +2,7 @@
 //! snt-check: property-based checks for surf-n-term (see /verif/DESIGN.md)
 #[macro_use]
 mod engine;
+mod c01;
 mod c02;
 mod c03;
 mod c04;
@@ -16,6 +17,7 @@ mod c15;
 mod c18;
 mod c20;
 mod hostile;
+mod mockterm;
 mod refre;
 mod refsgr;
 mod refvt;
@@ -87,6 +89,7 @@ fn main() {
         });
     }
     let code = match id.as_str() {
+        "C01" => dispatch(c01::C01, &mode),
         "C02" => dispatch(c02::C02, &mode),
         "C03" => dispatch(c03::C03, &mode),
         "C04" => dispatch(c04::C04, &mode),
